@@ -11,12 +11,18 @@
      about to write the cell, or has just written it) claimed a position less than N ahead of, and not behind,
      every cursor: the cell it writes holds a value every stream has consumed, and no consumer's cursor is at or
      past the position it is writing.
-   Not proved: that the cell stays untouched for the whole duration of a clone or view of a consumer that shares
-   its stream (the reference-count/pin invariant), and that the value has not been dropped (ownership ledger,
-   C05).  Those are decided by the correspondence (the model flags such accesses in g_bad) and the oracle. *)
+   - C04_cell_unchanged_during_clone_or_view: while a consumer is in the middle of a clone (broadcast) or of a
+     view closure, the cell it started from still holds exactly the value it started from - for a handle that
+     shares its stream this rests on C04_reference_count_is_holders (the reference count of a slot is the number
+     of consumers between their increment and their decrement on it) and C04_producer_meets_only_stale_holders (a
+     producer that has passed the test of the count and not yet written only coexists with holders whose cursor
+     re-check will fail); for a handle that acts as the only consumer it rests on the window invariant.
+   Not proved: that the value has not been dropped (ownership ledger, C05) and that the payload's own Clone
+   implementation behaves (it is opaque).  Those are decided by the correspondence (the model flags such accesses
+   in g_bad) and the oracle. *)
 From Coq Require Import NArith List Bool Lia.
 Require Import MQ.Arith64 MQ.Arith64Facts MQ.Types MQ.State MQ.Model MQ.Exec MQ.Reach MQ.RecvDefs MQ.InvReg MQ.WinStep MQ.WinDefs
-  MQ.InvWin MQ.WinRun MQ.SlotDefs MQ.InvSlot.
+  MQ.InvWin MQ.WinRun MQ.SlotDefs MQ.InvSlot MQ.SumCount MQ.PinDefs MQ.InvPin.
 Import ListNotations.
 Open Scope N_scope.
 
@@ -89,6 +95,71 @@ Check C04_writer_does_not_touch_unconsumed : forall c fut s a A,
   (forall sg, In sg (streams (sh s)) -> r_h (a_r A) < gpos (sh s) sg + c_n c) /\
   (forall b B, b <> a -> get (ags s) b = Some B -> wip (a_pc B) = true -> sl c (r_h (a_r B)) <> sl c (r_h (a_r A))).
 Print Assumptions C04_writer_does_not_touch_unconsumed.
+
+Theorem C04_cell_unchanged_during_clone_or_view : forall c fut s b B,
+  0 < c_n c -> c_n c <= B61 -> mreachN c fut s ->
+  lenN (ags s) < B62 -> lenN (g_log (sh s)) < B62 ->
+  get (ags s) b = Some B -> (a_pc B = KC \/ a_pc B = VK) ->
+  get (cells (sh s)) (sl c (r_p (a_r B))) = Some (r_tmp (a_r B)).
+Proof.
+  intros c fut s b B Np Ns R S1 S2 EB PC.
+  destruct (pin_mreachN c Np Ns fut s R (conj S1 S2)) as (_ & _ & _ & IT & _). exact (IT b B EB PC).
+Qed.
+Check C04_cell_unchanged_during_clone_or_view : forall c fut s b B,
+  0 < c_n c -> c_n c <= B61 -> mreachN c fut s ->
+  lenN (ags s) < B62 -> lenN (g_log (sh s)) < B62 ->
+  get (ags s) b = Some B -> (a_pc B = KC \/ a_pc B = VK) ->
+  get (cells (sh s)) (sl c (r_p (a_r B))) = Some (r_tmp (a_r B)).
+Print Assumptions C04_cell_unchanged_during_clone_or_view.
+
+Theorem C04_reference_count_is_holders : forall c fut s i,
+  0 < c_n c -> c_n c <= B61 -> mreachN c fut s ->
+  lenN (ags s) < B62 -> lenN (g_log (sh s)) < B62 ->
+  gpin (sh s) i = sumf (hw c i) (ags s).
+Proof.
+  intros c fut s i Np Ns R S1 S2.
+  destruct (pin_mreachN c Np Ns fut s R (conj S1 S2)) as (_ & PC & _). exact (PC i).
+Qed.
+Check C04_reference_count_is_holders : forall c fut s i,
+  0 < c_n c -> c_n c <= B61 -> mreachN c fut s ->
+  lenN (ags s) < B62 -> lenN (g_log (sh s)) < B62 ->
+  gpin (sh s) i = sumf (hw c i) (ags s).
+Print Assumptions C04_reference_count_is_holders.
+
+Theorem C04_producer_meets_only_stale_holders : forall c fut s w W b B,
+  0 < c_n c -> c_n c <= B61 -> mreachN c fut s ->
+  lenN (ags s) < B62 -> lenN (g_log (sh s)) < B62 -> is_bcast c = true ->
+  get (ags s) w = Some W -> zone W (sh s) -> get (ags s) b = Some B ->
+  holds B = true -> sl c (r_p (a_r B)) = sl c (r_h (a_r W)) ->
+  (a_pc B = R8 \/ a_pc B = R9) /\ r_p (a_r B) < gpos (sh s) (a_sid B).
+Proof.
+  intros c fut s w W b B Np Ns R S1 S2 BC EW ZW EB HB ESL.
+  destruct (pin_mreachN c Np Ns fut s R (conj S1 S2)) as (_ & _ & ST & _). exact (ST BC w W b B EW ZW EB HB ESL).
+Qed.
+Check C04_producer_meets_only_stale_holders : forall c fut s w W b B,
+  0 < c_n c -> c_n c <= B61 -> mreachN c fut s ->
+  lenN (ags s) < B62 -> lenN (g_log (sh s)) < B62 -> is_bcast c = true ->
+  get (ags s) w = Some W -> zone W (sh s) -> get (ags s) b = Some B ->
+  holds B = true -> sl c (r_p (a_r B)) = sl c (r_h (a_r W)) ->
+  (a_pc B = R8 \/ a_pc B = R9) /\ r_p (a_r B) < gpos (sh s) (a_sid B).
+Print Assumptions C04_producer_meets_only_stale_holders.
+
+(* non-vacuity: a consumer that shares its stream, in the middle of its clone, holding one reference on slot 0 *)
+Example C04_pinned_witness :
+  let c := mk_cfg BCast 2 WBusy in
+  exists s B, mreachN c false s /\ lenN (ags s) < B62 /\ lenN (g_log (sh s)) < B62 /\
+    get (ags s) 1 = Some B /\ a_pc B = KC /\ holds B = true /\ gpin (sh s) 0 = 1 /\
+    get (cells (sh s)) (sl c (r_p (a_r B))) = Some (r_tmp (a_r B)).
+Proof.
+  cbv zeta.
+  destruct (m_run true (mk_cfg BCast 2 WBusy) (init false)
+              [MCall 0 (CTrySend 5) 60; MCall 1 (CClone 2) 60; MBegin 1 CTryRecv; MSteps 1 9]) as [s|] eqn:E;
+    [|vm_compute in E; discriminate E].
+  destruct (get (ags s) 1) as [B|] eqn:EB; [|vm_compute in E; injection E as <-; vm_compute in EB; discriminate EB].
+  exists s, B. split; [eapply m_run_sound; [apply mrn_init|exact E]|].
+  vm_compute in E. injection E as <-. vm_compute in EB. injection EB as <-.
+  vm_compute. repeat split; intros X; discriminate X.
+Qed.
 
 (* non-vacuity: a broadcast consumer in the middle of its clone (program counter KC) with its cursor at its position *)
 Example C04_witness :
